@@ -46,6 +46,12 @@ static cbor_item_t* mk_int_setters(bool neg, unsigned w, unsigned vi) {
 static const unsigned char BYTES24[65600] = "abcdefghijklmnopqrstuvwx";
 static cbor_item_t* mk_bytes(unsigned li) {
   static const size_t L[] = {0, 1, 23, 24, 255, 256, 65535, 65536};
+  if (li == 8) return chk(cbor_new_definite_bytestring()); /* never given a handle: length 0, data NULL - a legal empty string */
+  if (li == 9) { /* a handle attached and then replaced by (NULL, 0) */
+    cbor_item_t* it = cbor_new_definite_bytestring();
+    if (chk(it)) cbor_bytestring_set_handle(it, NULL, 0);
+    return it;
+  }
   return chk(cbor_build_bytestring(BYTES24, L[li]));
 }
 static cbor_item_t* mk_text(unsigned ti) {
@@ -59,6 +65,12 @@ static cbor_item_t* mk_text(unsigned ti) {
     case 7: return chk(cbor_build_stringn((const char*)BYTES24, 256));
     case 8: return chk(cbor_build_stringn((const char*)BYTES24, 65535));
     case 9: return chk(cbor_build_stringn((const char*)BYTES24, 65536));
+    case 10: return chk(cbor_new_definite_string()); /* never given a handle: length 0, data NULL */
+    case 11: {
+      cbor_item_t* it = cbor_new_definite_string();
+      if (chk(it)) cbor_string_set_handle(it, NULL, 0);
+      return it;
+    }
     default: { /* new + set_handle path */
       cbor_item_t* it = cbor_new_definite_string();
       if (!chk(it)) return NULL;
@@ -152,8 +164,8 @@ static cbor_item_t* gen_leaf(int g) {
   switch (pick(8)) {
     case 0: { unsigned w = pick(4), vi = pick(w == 1 ? 5 : 4); return pick(2) ? mk_int_setters(false, w, vi) : mk_int(false, w, vi); }
     case 1: { unsigned w = pick(4), vi = pick(w == 1 ? 5 : 4); return pick(2) ? mk_int_setters(true, w, vi) : mk_int(true, w, vi); }
-    case 2: return mk_bytes(pick(8));
-    case 3: return mk_text(pick(10));
+    case 2: return mk_bytes(pick(10));
+    case 3: return mk_text(pick(13));
     case 4: return mk_indef_string(false, pick(3));
     case 5: return mk_indef_string(true, pick(3));
     case 6: { unsigned w = pick(3); return mk_float(w, pick(w == 0 ? 12 : 7)); }
@@ -217,13 +229,19 @@ static cbor_item_t* gen_container(int depth, int g) {
       cbor_decref(&x);
       return t;
     }
-    case 5: { /* one item shared by two array slots */
-      unsigned flav = pick(2);
+    case 5: { /* one item shared by 2, 3 or 4 adjacent array slots (a run of identical references), or by the first and the last of 3 */
+      unsigned flav = pick(2), share = pick(4);
+      unsigned cnt = share == 3 ? 3 : share + 2;
       cbor_item_t* x = gen(depth - 1, cg);
-      cbor_item_t* a = flav ? cbor_new_definite_array(2) : cbor_new_indefinite_array();
+      cbor_item_t* a = flav ? cbor_new_definite_array(cnt) : cbor_new_indefinite_array();
       if (chk(a) && x) {
-        push_or_fail(a, x);
-        push_or_fail(a, x);
+        for (unsigned i = 0; i < cnt; i++) {
+          if (share == 3 && i == 1) {
+            cbor_item_t* mid = cbor_build_uint8(7);
+            if (chk(mid)) { push_or_fail(a, mid); cbor_decref(&mid); }
+          } else
+            push_or_fail(a, x);
+        }
       }
       if (x) cbor_decref(&x);
       return a;
